@@ -12,6 +12,14 @@ use crate::chess::square::Square;
 use crate::engine::eval::Eval;
 use crate::engine::search::{SearchScore, MAX_SEARCH_DEPTH};
 use std::time::Duration;
+// names a driver may legitimately consult when it touches the shared table
+use crate::chess::zobrist::ZobristHash;
+use crate::engine::search::transposition::{NodeBound, SearchTranspositionTableData};
+
+/// key of the position the driver was given (the root); the ghost working copy carries a DIFFERENT key once an aborted
+/// search has left it somewhere inside the tree (C09: an aborted search does not unwind the working copy)
+pub const ROOT_KEY: u64 = 0x1234_5678_9abc_def0;
+pub static mut TT_WRITES: u16 = 0;
 
 pub static mut ABORTED: bool = false;
 pub static mut ASP_CALLS: u16 = 0;
@@ -21,7 +29,9 @@ pub static mut LAST_REPORTED_DEPTH: u8 = 0;
 pub static mut LAST_PV_FIRST: Option<Move> = None;
 pub static mut MAX_DEPTH_SEEN: u8 = 0;
 
-pub struct Game;
+pub struct Game {
+    pub zobrist: ZobristHash,
+}
 #[derive(Clone)]
 pub struct PrincipalVariation {
     pub first: Option<Move>,
@@ -41,10 +51,22 @@ impl GhostTime {
         Duration::from_nanos(kani::any())
     }
 }
-pub struct GhostTT;
+pub struct GhostTT {
+    pub generation: u8,
+}
 impl GhostTT {
     pub fn occupancy(&self) -> usize {
         kani::any()
+    }
+    /// CONTRACT of a table write at this level: an entry describes the position whose key it is filed under -- the key must
+    /// be the ROOT position's (the only position this driver knows anything about) and the move must be one the completed
+    /// search returned for the root (legal there).  After an aborted iteration the working copy is NOT the root any more.
+    pub fn insert(&mut self, key: &ZobristHash, data: SearchTranspositionTableData) {
+        unsafe {
+            TT_WRITES += 1;
+            assert!(key.0 == ROOT_KEY, "table entry filed under the key of a position the search was aborted in, not the root's");
+            assert!(data.best_move.is_none() || data.best_move == LAST_PV_FIRST, "table entry for the root carries a move no completed iteration returned");
+        }
     }
 }
 pub struct SearchRestrictions {
@@ -100,6 +122,9 @@ fn aspiration_search(_g: &mut Game, depth: u8, eval: Option<Eval>, pv: &mut Prin
         LAST_ASP_DEPTH = depth;
         if kani::any() {
             ABORTED = true;
+            // the working copy is left wherever the stop was observed
+            let k: u64 = kani::any();
+            _g.zobrist = ZobristHash(k);
             // an aborted iteration may have rewritten the line, but only with a searched legal move at its head
             // (C09.unwind.negamax): model as "arbitrary non-empty or unchanged"
             if kani::any() {
@@ -120,7 +145,7 @@ fn aspiration_search(_g: &mut Game, depth: u8, eval: Option<Eval>, pv: &mut Prin
 
 fn run(limit: Option<u8>) -> (Option<Move>, PrincipalVariation) {
     let restr = SearchRestrictions { depth: limit };
-    let mut ctx = SearchContext { search_restrictions: &restr, max_depth_reached: kani::any(), time_control: GhostTime, tt: GhostTT, nodes_visited: kani::any(), tbhits: kani::any() };
+    let mut ctx = SearchContext { search_restrictions: &restr, max_depth_reached: kani::any(), time_control: GhostTime, tt: GhostTT { generation: kani::any() }, nodes_visited: kani::any(), tbhits: kani::any() };
     let mut pv = PrincipalVariation { first: None };
     let mut rep = GhostReporter;
     unsafe {
@@ -131,8 +156,9 @@ fn run(limit: Option<u8>) -> (Option<Move>, PrincipalVariation) {
         LAST_REPORTED_DEPTH = 0;
         LAST_PV_FIRST = None;
         MAX_DEPTH_SEEN = 0;
+        TT_WRITES = 0;
     }
-    let r = search__body(&mut Game, &mut ctx, &mut pv, &mut rep);
+    let r = search__body(&mut Game { zobrist: ZobristHash(ROOT_KEY) }, &mut ctx, &mut pv, &mut rep);
     (r, pv)
 }
 
